@@ -604,8 +604,22 @@ class Gen:
         n_steps = self.rng.choice([d for d in range(1, g + 1) if g % d == 0])
         which = self.rng.choice(["smse", "smse", "timestep", "timestep", "normalized"])
         reduce = {"smse": ["mean", None], "timestep": ["mean", "max", None], "normalized": ["mean"]}[which]
-        self.emit({"op": "loss", "a": a, "b": b, "which": which, "reduce": self.rng.choice(reduce), "n_steps": n_steps, "g": self.rng.randrange(len(group(self.D))),
-                   "eps": self.rng.choice([None, None, 1e-5, 1e-2, 0.5])})
+        red = self.rng.choice(reduce)
+        # where the loss is evaluated: eagerly, under jit (its arguments are tracers and arrive in sorted
+        # order), or inside the pmapped evaluation of the real map_loss_in_batches (C18 in situ)
+        ctx = self.rng.choice(["eager", "eager", "eager", "jit", "in_batches"])
+        L = next(iter(ra.blocks.values())).shape[0]
+        extra = {}
+        if ctx == "in_batches":
+            if red != "mean":
+                ctx = "jit"
+            else:
+                ndev = self.rng.choice([n for n in (1, 2, 4) if n <= L])
+                B = ndev * self.rng.randint(1, max(1, L // ndev))
+                keyed = self.rng.random() < 0.5 and L % B == 0  # a shuffled epoch has a defined mean only when nothing is dropped
+                extra = {"ndev": ndev, "B": B, "key": self.rng.getrandbits(31) if keyed else None}
+        self.emit({"op": "loss", "a": a, "b": b, "which": which, "reduce": red, "n_steps": n_steps, "g": self.rng.randrange(len(group(self.D))),
+                   "eps": self.rng.choice([None, None, 1e-5, 1e-2, 0.5]), "ctx": ctx, **extra})
 
 
 _GROUPS: dict = {}
@@ -1446,6 +1460,20 @@ def _ref_losses(ra: RefMI, rb: RefMI, D: int, n_steps: int, eps: float = 1e-5):
     return per_entry, per_step, normalized
 
 
+_LOSS_JIT: dict = {}
+
+
+class _UnitModel(__import__("equinox").Module):
+    """The smallest thing ml.evaluate accepts as a model (it is put in inference mode and handed to map_and_loss)."""
+    w: jax.Array
+
+    def __init__(self):
+        self.w = jnp.zeros(())
+
+    def __call__(self, x, aux_data=None):
+        return x, aux_data
+
+
 def _close(got, want, rel=1e-5) -> bool:
     got = np.asarray(got, dtype=np.float64)
     want = np.asarray(want, dtype=np.float64)
@@ -1465,14 +1493,35 @@ def _loss_check(op, regs, refs, D, bump, fail, guarded):
     if differ:
         bump("orders_differ")
 
-    def call(x, y):
+    def call_eager(x, y):
         if which == "smse":
             return ml.smse_loss(x, y, reduce=reduce)
         if which == "timestep":
             return ml.timestep_smse_loss(x, y, n_steps, reduce=reduce)
         return ml.normalized_smse_loss(x, y) if eps is None else ml.normalized_smse_loss(x, y, eps=eps)
 
+    ctx = op.get("ctx", "eager")
+    n_used = None  # entries that contribute (in_batches without a key drops the remainder)
+    if ctx == "jit":
+        bump("loss_ctx_jit")
+        jkey = (which, reduce, n_steps, eps)
+        if jkey not in _LOSS_JIT:
+            _LOSS_JIT[jkey] = jax.jit(call_eager)
+        call = _LOSS_JIT[jkey]
+    elif ctx == "in_batches":
+        bump("loss_ctx_in_batches")
+        Lb = per_entry.shape[0]
+        n_used = (Lb // op["B"]) * op["B"]
+
+        def call(x, y):
+            key = None if op["key"] is None else jax.random.PRNGKey(op["key"])
+            return ml.map_loss_in_batches(lambda model, xb, yb, aux: (call_eager(xb, yb), aux), _UnitModel(), x, y, op["B"], key, devices=devices(op["ndev"]))
+    else:
+        call = call_eager
+
     got = np.asarray(guarded(lambda: call(a, b), "loss"))
+    if n_used is not None:
+        per_entry, per_step, normalized = per_entry[:n_used], per_step[:n_used], normalized[:n_used]
     if which == "smse":
         want = per_entry.mean() if reduce == "mean" else per_entry
     elif which == "timestep":
@@ -1489,7 +1538,7 @@ def _loss_check(op, regs, refs, D, bump, fail, guarded):
             want = per_step
     else:
         want = normalized.mean()
-    detail = {"which": which, "reduce": reduce, "n_steps": n_steps, "a_order": _order(a), "b_order": _order(b)}
+    detail = {"which": which, "reduce": reduce, "n_steps": n_steps, "a_order": _order(a), "b_order": _order(b), "ctx": ctx}
     if want is not None and not _close(got, want):
         fail("definition", {**detail, "got": got.tolist(), "want": np.asarray(want).tolist()}, "C18")
     if np.any(got < 0):
